@@ -325,7 +325,7 @@ package gomatrixserverlib
 //@   assigns nothing
 
 //@ func (*allowerContext).update
-//@   property C09, C18:safety
+//@   property C09, C08, C18:safety
 //@   requires a != nil && provider != nil && a.userIDQuerier != nil && ctxWF(*a) && providerLaw(provider)
 //@   requires !createErr(provider, a.userIDQuerier) ==> verKnown(string(provider.Create()[0].Version()))
 //@   ensures provider: a.provider == provider && a.userIDQuerier == old(a.userIDQuerier) && a.roomID == old(a.roomID)
@@ -339,7 +339,7 @@ package gomatrixserverlib
 //@   assigns a.provider, a.createEvent, a.powerLevelsEvent, a.joinRuleEvent, a.create, a.creators, a.privilegedCreators, a.powerLevels, a.joinRule
 
 //@ func newAllowerContext
-//@   property C09, C18:safety
+//@   property C09, C08, C18:safety
 //@   requires provider != nil && userIDQuerier != nil && providerLaw(provider) && providerVersionsKnown(provider, userIDQuerier)
 //@   ensures fresh: result != nil && fresh(result)
 //@   ensures fields: result.userIDQuerier == userIDQuerier && result.roomID == roomID
@@ -1341,17 +1341,17 @@ package gomatrixserverlib
 // ---------------------------------------------------------------- C06 / C12: key validity and the key ring
 
 //@ func StrictValiditySignatureCheck
-//@   property C12, C06, C18:safety
+//@   property C12, C06, C13, C18:safety
 //@   ensures rule: result <==> strictValidSpec(atTs, validUntil)
 //@   assigns nothing
 
 //@ func NoStrictValidityCheck
-//@   property C12, C06, C18:safety
+//@   property C12, C06, C13, C18:safety
 //@   ensures always: result
 //@   assigns nothing
 
 //@ func (PublicKeyLookupResult).WasValidAt
-//@   property C12, C06, C18:safety
+//@   property C12, C06, C13, C18:safety
 //@   requires signatureValidityCheck != nil
 //@   ensures rule: result == wasValidAtSpec(r, atTs, signatureValidityCheck)
 //@   assigns nothing
